@@ -227,6 +227,7 @@ pub struct SymRec {
     pub state_before: u8,
 }
 
+#[derive(Clone)]
 pub struct RefEnc {
     probs: Probs,
     rc: RangeEnc,
@@ -249,6 +250,19 @@ impl RefEnc {
     }
     pub fn props(&self) -> Props {
         self.probs.props
+    }
+    /// number of bytes the range encoder is holding back (1 cached byte plus a
+    /// run of pending 0xFF bytes that a later carry may still turn into 0x00)
+    pub fn pending_bytes(&self) -> u64 {
+        self.rc.cache_size
+    }
+    /// the range encoder's 33-bit `low` register
+    pub fn low(&self) -> u64 {
+        self.rc.low
+    }
+    /// bytes the range encoder has emitted so far in this segment
+    pub fn emitted(&self) -> &[u8] {
+        &self.rc.out
     }
     /// bytes of the current segment the eager decoder has consumed so far
     pub fn consumed(&self) -> u32 {
